@@ -771,4 +771,599 @@ theorem tournamentLoop_spec (P : Params C D) (pop : List PopEntry) (draws : Nat 
 
 end Tournament
 
+/-! ## One generation, and the whole run -/
+section Generation
+variable {C D : Type}
+
+theorem HofInv.of_agree {P : Params C D} {t : Tol} {h h1 : Heap C} {hof : List HofEntry}
+    (hsz : h1.size = h.size) (hag : ∀ r ∈ hofRefs hof, h1.get? r = h.get? r) (hi : HofInv P t h hof) :
+    HofInv P t h1 hof := by
+  refine ⟨fun r hr => by rw [hsz]; exact hi.bound r hr, hi.nodup, ?_, hi.sorted⟩
+  intro e he
+  have := hi.honest e he
+  unfold HofEntryHonest at *
+  split
+  · next r hr =>
+    rw [hr] at this
+    rw [hag r (List.mem_filterMap.mpr ⟨e, he, hr⟩)]
+    exact this
+  · next hr => rw [hr] at this; exact this
+
+theorem HofInv.ext {P : Params C D} {t : Tol} {h h1 : Heap C} {hof : List HofEntry}
+    (hx : Ext h h1) (hi : HofInv P t h hof) : HofInv P t h1 hof :=
+  ⟨fun r hr => Nat.lt_of_lt_of_le (hi.bound r hr) hx.1, hi.nodup, fun e he => (hi.honest e he).ext hx, hi.sorted⟩
+
+/-- the invariant of the solver state between generations:
+    * the population has `n_pop` members, the hall of fame `n_hof` entries;
+    * no dangling references;
+    * the population's circuit objects are pairwise distinct, the hall of fame's too, and no hall-of-fame circuit is a
+      population member's object (**stores copies**);
+    * every hall-of-fame score is the metric of the circuit stored with it (**honest**);
+    * the hall of fame is ordered up to the isclose tolerance. -/
+structure Inv (P : Params C D) (cfg : Cfg) (s : St C) : Prop where
+  popLen : s.pop.length = cfg.nPop
+  hofLen : s.hof.length = cfg.nHof
+  popBound : ∀ e ∈ s.pop, e.circ < s.heap.size
+  popNodup : (popRefs s.pop).Nodup
+  disjoint : ∀ r ∈ hofRefs s.hof, r ∉ popRefs s.pop
+  hof : HofInv P cfg.tol s.heap s.hof
+
+theorem popRefs_length (pop : List PopEntry) : (popRefs pop).length = pop.length := by simp [popRefs]
+
+theorem mem_popRefs {pop : List PopEntry} {r : Nat} : r ∈ popRefs pop ↔ ∃ e ∈ pop, e.circ = r := by
+  simp [popRefs]
+
+/-- what one generation establishes (besides keeping the invariant) -/
+structure GenFacts (P : Params C D) (cfg : Cfg) (dr : Draws D) (g : Nat) (s s' : St C) : Prop where
+  /-- the population as `update_hof` saw it: same objects as before, mutated in place, each with the metric of its own
+      circuit as score -/
+  seen : ∃ h1 pop1, mutatePhase P (dr.mutation g) 0 cfg.nPop s.heap s.pop = .ok (h1, pop1) ∧
+    popRefs pop1 = popRefs s.pop ∧ (∀ e ∈ pop1, PopHonest P h1 e) ∧
+    ∃ h2, updateHof cfg.tol P.size cfg.nHof h1 s.hof pop1 = .ok (h2, s'.hof) ∧
+      (∀ r ∈ hofRefs s'.hof, r ∈ hofRefs s.hof ∨ s.heap.size ≤ r)
+  /-- hall-of-fame objects that are kept are not touched by the generation -/
+  kept : ∀ r ∈ hofRefs s.hof, s'.heap.get? r = s.heap.get? r
+
+theorem generation_inv (P : Params C D) (cfg : Cfg) (dr : Draws D) (g : Nat) {s s' : St C}
+    (hinv : Inv P cfg s) (hres : generation P cfg dr g s = .ok s') : Inv P cfg s' ∧ GenFacts P cfg dr g s s' := by
+  unfold generation at hres
+  split at hres
+  · simp at hres
+  · next h1 pop1 hmut =>
+    obtain ⟨m1, m2, m3, _, m5⟩ := mutatePhase_spec P (dr.mutation g) cfg.nPop 0 s.heap s.pop
+      (by rw [hinv.popLen]; omega) hinv.popNodup hinv.popBound hmut
+    have hpop1len : pop1.length = cfg.nPop := by
+      rw [← popRefs_length, m1, popRefs_length, hinv.popLen]
+    have hpop1honest : ∀ e ∈ pop1, PopHonest P h1 e := by
+      intro e he
+      obtain ⟨i, hi⟩ := List.mem_iff_getElem?.mp he
+      exact m5 i e (Nat.zero_le _) hi
+    have hagree : ∀ r ∈ hofRefs s.hof, h1.get? r = s.heap.get? r := by
+      intro r hr
+      exact m3 r (by simpa using hinv.disjoint r hr)
+    have hhof1 : HofInv P cfg.tol h1 s.hof := HofInv.of_agree m2 hagree hinv.hof
+    split at hres
+    · simp at hres
+    · next h2 hof2 hupd =>
+      obtain ⟨u1, u2, u3, u4⟩ := updateHof_inv P cfg.tol cfg.nHof pop1 hhof1 hinv.hofLen hpop1honest hupd
+      have hpop1bound : ∀ e ∈ pop1, e.circ < h2.size := by
+        intro e he
+        obtain ⟨c, hc, _⟩ := hpop1honest e he
+        have := (Heap.get?_some_iff_lt h1 e.circ).mp ⟨c, hc⟩
+        exact Nat.lt_of_lt_of_le this u2.1
+      have hpop1h1 : ∀ r ∈ popRefs pop1, r < h1.size := by
+        intro r hr
+        obtain ⟨e, he, rfl⟩ := mem_popRefs.mp hr
+        obtain ⟨c, hc, _⟩ := hpop1honest e he
+        exact (Heap.get?_some_iff_lt h1 e.circ).mp ⟨c, hc⟩
+      have hdisj2 : ∀ r ∈ hofRefs hof2, r ∉ popRefs pop1 := by
+        intro r hr hm
+        rcases u4 r hr with hold | ⟨hfresh, _⟩
+        · exact hinv.disjoint r hold (by rw [← m1]; exact hm)
+        · have := hpop1h1 r hm; omega
+      have hfacts_refs : ∀ r ∈ hofRefs hof2, r ∈ hofRefs s.hof ∨ s.heap.size ≤ r := by
+        intro r hr
+        rcases u4 r hr with hold | ⟨hfresh, _⟩
+        · exact Or.inl hold
+        · exact Or.inr (by omega)
+      have hkept2 : ∀ r ∈ hofRefs s.hof, h2.get? r = s.heap.get? r := by
+        intro r hr
+        have hlt : r < h1.size := by rw [m2]; exact hinv.hof.bound r hr
+        rw [u2.2 r hlt, hagree r hr]
+      simp only at hres
+      split at hres
+      · simp at hres
+      · split at hres
+        · -- selection active
+          next hsel =>
+          split at hres
+          · simp at hres
+          · next h3 pop3 htour =>
+            simp only [Except.ok.injEq] at hres
+            subst hres
+            unfold tournamentSelection at htour
+            split at htour
+            · -- k = 0: the same population
+              simp only [Except.ok.injEq, Prod.mk.injEq] at htour
+              obtain ⟨rfl, rfl⟩ := htour
+              exact ⟨⟨hpop1len, u3, hpop1bound, by rw [m1]; exact hinv.popNodup, hdisj2, u1⟩,
+                ⟨⟨h1, pop1, hmut, m1, hpop1honest, h2, hupd, hfacts_refs⟩, hkept2⟩⟩
+            · obtain ⟨t1, t2, t3, t4, t5, _⟩ := tournamentLoop_spec P pop1 (dr.tournament g) h2.size cfg.nPop 0 h2 []
+                (fun e he => (hpop1honest e he).ext u2) (Nat.le_refl _) (by simp) (by simp [popRefs])
+                (by simp [popRefs]) (by simp) htour
+              refine ⟨⟨by simpa using t2, u3, ?_, t4, ?_, u1.ext t1⟩,
+                ⟨⟨h1, pop1, hmut, m1, hpop1honest, h2, hupd, hfacts_refs⟩, ?_⟩⟩
+              · intro e he
+                exact (t5 e.circ (mem_popRefs.mpr ⟨e, he, rfl⟩)).2
+              · intro r hr hm
+                have h1' := u1.bound r hr
+                have h2' := (t5 r hm).1
+                omega
+              · intro r hr
+                have hlt : r < h2.size := by
+                  have : r < h1.size := by rw [m2]; exact hinv.hof.bound r hr
+                  exact Nat.lt_of_lt_of_le this u2.1
+                show h3.get? r = s.heap.get? r
+                rw [t1.2 r hlt, hkept2 r hr]
+        · simp only [Except.ok.injEq] at hres
+          subst hres
+          exact ⟨⟨hpop1len, u3, hpop1bound, by rw [m1]; exact hinv.popNodup, hdisj2, u1⟩,
+            ⟨⟨h1, pop1, hmut, m1, hpop1honest, h2, hupd, hfacts_refs⟩, hkept2⟩⟩
+
+/-- any number of generations keeps the invariant -/
+theorem generations_inv (P : Params C D) (cfg : Cfg) (dr : Draws D) :
+    ∀ (fuel g : Nat) {s s' : St C}, Inv P cfg s → generations P cfg dr g fuel s = .ok s' → Inv P cfg s' := by
+  intro fuel
+  induction fuel with
+  | zero => intro g s s' hinv hres; simp [generations] at hres; subst hres; exact hinv
+  | succ fuel ih =>
+    intro g s s' hinv hres
+    simp only [generations] at hres
+    split at hres
+    · simp at hres
+    · next s1 hs1 => exact ih (g + 1) (generation_inv P cfg dr g hinv hs1).1 hres
+
+end Generation
+
+/-! ## Scores on which `isclose` behaves like "equal": exact statements on classes -/
+
+/-- On the set `S` of scores, `np.isclose` is an equivalence relation whose classes are ordered consistently with `<`.
+    (True for any set of scores that is a union of clusters much narrower than the tolerance and much farther apart
+    than it — e.g. the infidelities `1 - 2^-k` of stabilizer states with float noise `1e-16`.  The driver evaluates the
+    hypothesis on the scores of every run, field `coherent=`.) -/
+structure Coherent (t : Tol) (S : Score → Prop) : Prop where
+  refl : ∀ a, S a → a.isclose t a = true
+  symm : ∀ a b, S a → S b → a.isclose t b = true → b.isclose t a = true
+  trans : ∀ a b c, S a → S b → S c → a.isclose t b = true → b.isclose t c = true → a.isclose t c = true
+  convex : ∀ a b c, S a → S b → S c → a.isclose t b = true → b.lt c = true → b.isclose t c = false → a.lt c = true
+
+/-- `a` is in a class not above the class of `b` -/
+def ClsLe (t : Tol) (a b : Score) : Prop := a.isclose t b = true ∨ a.lt b = true
+
+theorem Coherent.convex' {t : Tol} {S : Score → Prop} (hc : Coherent t S) {a b c : Score} (ha : S a) (hb : S b)
+    (hcS : S c) (hab : a.lt b = true) (hbc : b.isclose t c = true) (hnab : a.isclose t b = false) :
+    a.lt c = true := by
+  cases hac : a.lt c
+  · -- ¬ a < c : then c < a or c = a
+    exfalso
+    by_cases hca : c = a
+    · subst hca
+      have := hc.symm b c hb hcS hbc
+      rw [this] at hnab; simp at hnab
+    · have hlt : c.lt a = true := Score.lt_of_not_lt_of_ne hac (fun h => hca h.symm)
+      have hcb : c.isclose t b = true := hc.symm b c hb hcS hbc
+      cases hcla : c.isclose t a
+      · have := hc.convex b c a hb hcS ha hbc hlt hcla
+        have h2 := Score.lt_asymm hab
+        rw [this] at h2; simp at h2
+      · have hba := hc.trans b c a hb hcS ha hbc hcla
+        have := hc.symm b a hb ha hba
+        rw [this] at hnab; simp at hnab
+  · rfl
+
+theorem ClsLe.refl {t : Tol} {S : Score → Prop} (hc : Coherent t S) {a : Score} (ha : S a) : ClsLe t a a :=
+  Or.inl (hc.refl a ha)
+
+theorem ClsLe.trans {t : Tol} {S : Score → Prop} (hc : Coherent t S) {a b c : Score} (ha : S a) (hb : S b)
+    (hcS : S c) (h1 : ClsLe t a b) (h2 : ClsLe t b c) : ClsLe t a c := by
+  rcases h1 with h1 | h1
+  · rcases h2 with h2 | h2
+    · exact Or.inl (hc.trans a b c ha hb hcS h1 h2)
+    · cases hbc : b.isclose t c
+      · exact Or.inr (hc.convex a b c ha hb hcS h1 h2 hbc)
+      · exact Or.inl (hc.trans a b c ha hb hcS h1 hbc)
+  · rcases h2 with h2 | h2
+    · cases hab : a.isclose t b
+      · exact Or.inr (hc.convex' ha hb hcS h1 h2 hab)
+      · exact Or.inl (hc.trans a b c ha hb hcS hab h2)
+    · exact Or.inr (Score.lt_trans h1 h2)
+
+theorem LeTol.clsLe {t : Tol} {S : Score → Prop} (hc : Coherent t S) {a b : Score} (ha : S a) (hb : S b)
+    (h : LeTol t a b) : ClsLe t a b := by
+  rcases h with h | h | h
+  · by_cases hab : a = b
+    · subst hab; exact ClsLe.refl hc ha
+    · exact Or.inr (Score.lt_of_not_lt_of_ne h (fun e => hab e.symm))
+  · exact Or.inl h
+  · exact Or.inl (hc.symm b a hb ha h)
+
+/-- with coherent scores a tolerance-sorted hall of fame is sorted by score class: entry `i` is not above entry `j`
+    for all `i < j` -/
+theorem sortedTol_pairwise {t : Tol} {S : Score → Prop} (hc : Coherent t S) {hof : List HofEntry}
+    (hS : ∀ e ∈ hof, S e.score) (hs : SortedTol t hof) :
+    ∀ (d i : Nat) (a b : HofEntry), hof[i]? = some a → hof[i + d + 1]? = some b → ClsLe t a.score b.score := by
+  intro d
+  induction d with
+  | zero =>
+    intro i a b ha hb
+    exact (hs i a b ha hb).clsLe hc (hS a (List.mem_of_getElem? ha)) (hS b (List.mem_of_getElem? hb))
+  | succ d ih =>
+    intro i a b ha hb
+    have hlt : i + d + 1 < hof.length := by
+      have := (List.getElem?_eq_some_iff.mp hb).1
+      omega
+    have hm : hof[i + d + 1]? = some hof[i + d + 1] := List.getElem?_eq_getElem hlt
+    have h1 := ih i a _ ha hm
+    have h2 := (hs (i + d + 1) _ b hm hb).clsLe hc (hS _ (List.mem_of_getElem? hm)) (hS b (List.mem_of_getElem? hb))
+    exact ClsLe.trans hc (hS a (List.mem_of_getElem? ha)) (hS _ (List.mem_of_getElem? hm))
+      (hS b (List.mem_of_getElem? hb)) h1 h2
+
+section Head
+variable {C D : Type}
+
+/-- processing one population member: length, provenance of the entries, and how the first entry changes
+    (no invariant needed) -/
+theorem updateHofOne_head (t : Tol) (size : C → Nat) (n : Nat) {h h' : Heap C} {hof hof' : List HofEntry}
+    {e : PopEntry} (hlen : hof.length = n) (hres : updateHofOne t size n h hof e = .ok (h', hof')) :
+    hof'.length = hof.length ∧ (∀ x ∈ hof', x ∈ hof ∨ x.score = e.score) ∧ HeadStep t hof hof' e.score := by
+  unfold updateHofOne at hres
+  split at hres
+  · simp at hres
+  · next c hc =>
+    split at hres
+    · simp at hres
+    · next hscan =>
+      simp only [Except.ok.injEq, Prod.mk.injEq] at hres
+      obtain ⟨rfl, rfl⟩ := hres
+      refine ⟨rfl, fun x hx => Or.inl hx, ?_⟩
+      intro a b ha hb
+      rw [ha] at hb
+      have hab : b = a := by simpa using hb.symm
+      refine Or.inl ⟨hab, ?_⟩
+      have hn : 0 < n := by
+        have := (List.getElem?_eq_some_iff.mp ha).1
+        omega
+      obtain ⟨e0, he0, hp0⟩ := scanHof_none t size h hof e.score (size c) n 0 hscan 0 (Nat.le_refl _) (by omega)
+      rw [ha] at he0
+      have : e0 = a := by simpa using he0.symm
+      subst this
+      rcases hp0 with ⟨h1, _⟩ | ⟨_, h2⟩
+      · exact Or.inl h1
+      · exact Or.inr h2
+    · next p hscan =>
+      split at hres
+      · simp at hres
+      · next h2 r' hcopy =>
+        simp only [Except.ok.injEq, Prod.mk.injEq] at hres
+        obtain ⟨rfl, rfl⟩ := hres
+        obtain ⟨_, _, ⟨ep, hep, hhit⟩, hpassed⟩ := scanHof_some t size h hof e.score (size c) n 0 p hscan
+        have hplt : p < hof.length := (List.getElem?_eq_some_iff.mp hep).1
+        refine ⟨insertPop_length hof p _ hplt, ?_, ?_⟩
+        · intro x hx
+          rcases mem_insertPop (Nat.le_of_lt hplt) hx with rfl | hm
+          · exact Or.inr rfl
+          · exact Or.inl hm
+        · intro a b ha hb
+          rw [insertPop_getElem? hof p _ hplt] at hb
+          by_cases hp0 : p = 0
+          · subst hp0
+            simp at hb
+            subst hb
+            rw [hep] at ha
+            have : a = ep := by simpa using ha.symm
+            subst this
+            right
+            refine ⟨rfl, ?_⟩
+            rcases hhit with ⟨h1, _⟩ | ⟨_, h2'⟩
+            · exact Or.inl h1
+            · exact Or.inr h2'
+          · have : 0 < p := by omega
+            simp only [this, if_true] at hb
+            rw [ha] at hb
+            have hab : b = a := by simpa using hb.symm
+            obtain ⟨e0, he0, hp0'⟩ := hpassed 0 (Nat.le_refl _) this
+            rw [ha] at he0
+            have : e0 = a := by simpa using he0.symm
+            subst this
+            left
+            refine ⟨hab, ?_⟩
+            rcases hp0' with ⟨h1, _⟩ | ⟨_, h2'⟩
+            · exact Or.inl h1
+            · exact Or.inr h2'
+
+/-- `update_hof(population)` with coherent scores: the best entry does not get worse, and it is not worse than any
+    member of the population just processed -/
+theorem updateHof_head (t : Tol) (S : Score → Prop) (hc : Coherent t S) (size : C → Nat) (n : Nat) :
+    ∀ (pop : List PopEntry) {h h' : Heap C} {hof hof' : List HofEntry},
+      hof.length = n → (∀ x ∈ hof, S x.score) → (∀ e ∈ pop, S e.score) →
+      updateHof t size n h hof pop = .ok (h', hof') →
+      hof'.length = n ∧ (∀ x ∈ hof', S x.score) ∧
+      ∀ a b, hof[0]? = some a → hof'[0]? = some b →
+        ClsLe t b.score a.score ∧ ∀ e ∈ pop, ClsLe t b.score e.score := by
+  intro pop
+  induction pop with
+  | nil =>
+    intro h h' hof hof' hlen hS _ hres
+    simp only [updateHof, Except.ok.injEq, Prod.mk.injEq] at hres
+    obtain ⟨rfl, rfl⟩ := hres
+    refine ⟨hlen, hS, ?_⟩
+    intro a b ha hb
+    rw [ha] at hb
+    have : b = a := by simpa using hb.symm
+    subst this
+    exact ⟨ClsLe.refl hc (hS b (List.mem_of_getElem? ha)), by simp⟩
+  | cons e rest ih =>
+    intro h h' hof hof' hlen hS hSp hres
+    simp only [updateHof] at hres
+    split at hres
+    · simp at hres
+    · next h1 hof1 hone =>
+      obtain ⟨l1, m1, hs1⟩ := updateHofOne_head t size n hlen hone
+      have hSe : S e.score := hSp e List.mem_cons_self
+      have hS1 : ∀ x ∈ hof1, S x.score := by
+        intro x hx
+        rcases m1 x hx with hm | hm
+        · exact hS x hm
+        · rw [hm]; exact hSe
+      obtain ⟨l2, hS2, hh2⟩ := ih (l1.trans hlen) hS1 (fun x hx => hSp x (List.mem_cons_of_mem _ hx)) hres
+      refine ⟨l2, hS2, ?_⟩
+      intro a b ha hb
+      have hn : 0 < hof1.length := by
+        have := (List.getElem?_eq_some_iff.mp ha).1
+        omega
+      have hm : hof1[0]? = some hof1[0] := List.getElem?_eq_getElem hn
+      obtain ⟨g1, g2⟩ := hh2 _ b hm hb
+      have hSa : S a.score := hS a (List.mem_of_getElem? ha)
+      have hSm : S (hof1[0]).score := hS1 _ (List.mem_of_getElem? hm)
+      have hSb : S b.score := hS2 b (List.mem_of_getElem? hb)
+      -- the first step
+      have hstep : ClsLe t (hof1[0]).score a.score ∧ ClsLe t (hof1[0]).score e.score := by
+        rcases hs1 a _ ha hm with ⟨heq, hcond⟩ | ⟨heq, hcond⟩
+        · rw [heq]
+          refine ⟨ClsLe.refl hc hSa, ?_⟩
+          rcases hcond with hcl | hnl
+          · exact Or.inl (hc.symm _ _ hSe hSa hcl)
+          · by_cases hae : a.score = e.score
+            · rw [hae]; exact ClsLe.refl hc hSe
+            · exact Or.inr (Score.lt_of_not_lt_of_ne hnl (fun h => hae h.symm))
+        · rw [heq]
+          exact ⟨hcond, ClsLe.refl hc hSe⟩
+      refine ⟨ClsLe.trans hc hSb hSm hSa g1 hstep.1, ?_⟩
+      intro x hx
+      rcases List.mem_cons.mp hx with rfl | hmem
+      · exact ClsLe.trans hc hSb hSm hSe g1 hstep.2
+      · exact g2 x hmem
+
+end Head
+
+/-! ## The initial state and the whole run -/
+section Run
+variable {C D : Type}
+
+theorem initState_inv (P : Params C D) (cfg : Cfg) (tp : TransProbs) (init : List C) (hlen : init.length = cfg.nPop) :
+    Inv P cfg (initState cfg tp init) := by
+  refine ⟨?_, ?_, ?_, ?_, ?_, ⟨?_, ?_, ?_, ?_⟩⟩
+  · simp [initState, hlen]
+  · simp [initState]
+  · intro e he
+    simp only [initState, List.mem_map, List.mem_range] at he
+    obtain ⟨j, hj, rfl⟩ := he
+    simpa [Heap.size, initState] using hj
+  · have : popRefs (initState cfg tp init).pop = List.range init.length := by
+      simp [initState, popRefs, List.map_map, Function.comp_def]
+    rw [this]; exact List.nodup_range
+  · intro r hr
+    simp [initState, hofRefs] at hr
+  · intro r hr
+    simp [initState, hofRefs] at hr
+  · simp [initState, hofRefs]
+  · intro e he
+    simp only [initState, List.mem_replicate] at he
+    obtain ⟨_, rfl⟩ := he
+    simp [HofEntryHonest]
+  · intro j a b ha hb
+    simp only [initState, List.getElem?_replicate] at ha hb
+    split at ha <;> simp at ha
+    split at hb <;> simp at hb
+    subst ha; subst hb
+    exact Or.inl rfl
+
+/-- the scores that can occur in a run: values of the metric, and `np.inf` -/
+theorem Inv.hof_scores {P : Params C D} {cfg : Cfg} {s : St C} (hinv : Inv P cfg s) (S : Score → Prop)
+    (hm : ∀ c, S (P.metric c)) (hinf : S Score.inf) : ∀ x ∈ s.hof, S x.score := by
+  intro x hx
+  have := hinv.hof.honest x hx
+  unfold HofEntryHonest at this
+  split at this
+  · obtain ⟨c, _, hs⟩ := this; rw [hs]; exact hm c
+  · rw [this]; exact hinf
+
+/-- one generation with coherent scores: the best entry does not get worse and is not worse than anything evaluated in
+    this generation -/
+theorem generation_head (P : Params C D) (cfg : Cfg) (dr : Draws D) (g : Nat) (S : Score → Prop)
+    (hc : Coherent cfg.tol S) (hm : ∀ c, S (P.metric c)) (hinf : S Score.inf) {s s' : St C}
+    (hinv : Inv P cfg s) (hres : generation P cfg dr g s = .ok s') :
+    ∀ a b, s.hof[0]? = some a → s'.hof[0]? = some b →
+      ClsLe cfg.tol b.score a.score ∧
+      ∃ h1 pop1, mutatePhase P (dr.mutation g) 0 cfg.nPop s.heap s.pop = .ok (h1, pop1) ∧
+        ∀ e ∈ pop1, ClsLe cfg.tol b.score e.score := by
+  intro a b ha hb
+  obtain ⟨_, ⟨h1, pop1, hmut, _, hhon, h2, hupd, _⟩, _⟩ := generation_inv P cfg dr g hinv hres
+  have hSp : ∀ e ∈ pop1, S e.score := by
+    intro e he
+    obtain ⟨c, _, hs⟩ := hhon e he
+    rw [hs]; exact hm c
+  obtain ⟨_, _, hh⟩ := updateHof_head cfg.tol S hc P.size cfg.nHof pop1 hinv.hofLen
+    (hinv.hof_scores S hm hinf) hSp hupd
+  obtain ⟨g1, g2⟩ := hh a b ha hb
+  exact ⟨g1, h1, pop1, hmut, g2⟩
+
+/-- over any number of generations the best score never gets worse (coherent scores) -/
+theorem generations_head (P : Params C D) (cfg : Cfg) (dr : Draws D) (S : Score → Prop)
+    (hc : Coherent cfg.tol S) (hm : ∀ c, S (P.metric c)) (hinf : S Score.inf) :
+    ∀ (fuel g : Nat) {s s' : St C}, Inv P cfg s → generations P cfg dr g fuel s = .ok s' →
+      ∀ a b, s.hof[0]? = some a → s'.hof[0]? = some b → ClsLe cfg.tol b.score a.score := by
+  intro fuel
+  induction fuel with
+  | zero =>
+    intro g s s' hinv hres a b ha hb
+    simp [generations] at hres; subst hres
+    rw [ha] at hb
+    have : b = a := by simpa using hb.symm
+    subst this
+    exact ClsLe.refl hc (hinv.hof_scores S hm hinf b (List.mem_of_getElem? ha))
+  | succ fuel ih =>
+    intro g s s' hinv hres a b ha hb
+    simp only [generations] at hres
+    split at hres
+    · simp at hres
+    · next s1 hs1 =>
+      have hinv1 := (generation_inv P cfg dr g hinv hs1).1
+      have hn : 0 < s1.hof.length := by
+        have := (List.getElem?_eq_some_iff.mp ha).1
+        rw [hinv1.hofLen, ← hinv.hofLen]; exact this
+      have hmid : s1.hof[0]? = some s1.hof[0] := List.getElem?_eq_getElem hn
+      have h1 := (generation_head P cfg dr g S hc hm hinf hinv hs1 a _ ha hmid).1
+      have h2 := ih (g + 1) hinv1 hres _ b hmid hb
+      have hinv' := generations_inv P cfg dr fuel (g + 1) hinv1 hres
+      exact ClsLe.trans hc (hinv'.hof_scores S hm hinf b (List.mem_of_getElem? hb))
+        (hinv1.hof_scores S hm hinf _ (List.mem_of_getElem? hmid))
+        (hinv.hof_scores S hm hinf a (List.mem_of_getElem? ha)) h2 h1
+
+theorem solve_spec (P : Params C D) (cfg : Cfg) (dr : Draws D) (tp : TransProbs) (init : List C)
+    {s : St C} {res : HofEntry} (hres : solve P cfg dr tp init = .ok (s, res)) :
+    generations P cfg dr 0 cfg.nStop (initState cfg tp init) = .ok s ∧ s.hof[0]? = some res := by
+  unfold solve at hres
+  split at hres
+  · simp at hres
+  · next s1 hs1 =>
+    split at hres
+    · simp at hres
+    · next e he =>
+      simp only [Except.ok.injEq, Prod.mk.injEq] at hres
+      obtain ⟨rfl, rfl⟩ := hres
+      exact ⟨hs1, he⟩
+
+end Run
+
+/-! ## The computable coherence check implies `Coherent` -/
+
+theorem coherent_of_coherentOn (t : Tol) (l : List Score) (h : coherentOn t l = true) :
+    Coherent t (fun a => a ∈ l) := by
+  unfold coherentOn at h
+  rw [List.all_eq_true] at h
+  refine ⟨?_, ?_, ?_, ?_⟩
+  · intro a ha
+    have := h a ha
+    simp only [Bool.and_eq_true] at this
+    exact this.1
+  · intro a b ha hb hab
+    have := h a ha
+    simp only [Bool.and_eq_true, List.all_eq_true] at this
+    have := (this.2 b hb).1
+    simpa [hab] using this
+  · intro a b c ha hb hc hab hbc
+    have := h a ha
+    simp only [Bool.and_eq_true, List.all_eq_true] at this
+    have := ((this.2 b hb).2 c hc).1
+    simpa [hab, hbc] using this
+  · intro a b c ha hb hc hab hbc hnbc
+    have := h a ha
+    simp only [Bool.and_eq_true, List.all_eq_true] at this
+    have := ((this.2 b hb).2 c hc).2
+    simpa [hab, hbc, hnbc] using this
+
+/-! ## The run depends only on the draws it consumes -/
+section Congr
+variable {C D : Type}
+
+theorem mutatePhase_congr (P : Params C D) (d1 d2 : Nat → D) :
+    ∀ (fuel j : Nat) (h : Heap C) (pop : List PopEntry),
+      (∀ k, j ≤ k → k < j + fuel → d1 k = d2 k) →
+      mutatePhase P d1 j fuel h pop = mutatePhase P d2 j fuel h pop := by
+  intro fuel
+  induction fuel with
+  | zero => intro j h pop _; simp [mutatePhase]
+  | succ fuel ih =>
+    intro j h pop hd
+    unfold mutatePhase
+    split
+    · rfl
+    · next e he =>
+      have hj : d1 j = d2 j := hd j (Nat.le_refl _) (by omega)
+      simp only [hj]
+      split
+      · rfl
+      · next c hc => exact ih (j + 1) _ _ (fun k hk1 hk2 => hd k (by omega) (by omega))
+
+theorem tournamentLoop_congr (pop : List PopEntry) (d1 d2 : Nat → List Nat) :
+    ∀ (fuel i : Nat) (h : Heap C) (acc : List PopEntry),
+      (∀ k, i ≤ k → k < i + fuel → d1 k = d2 k) →
+      tournamentLoop pop d1 i fuel h acc = tournamentLoop pop d2 i fuel h acc := by
+  intro fuel
+  induction fuel with
+  | zero => intro i h acc _; simp [tournamentLoop]
+  | succ fuel ih =>
+    intro i h acc hd
+    unfold tournamentLoop
+    have hi : d1 i = d2 i := hd i (Nat.le_refl _) (by omega)
+    rw [hi]
+    split
+    · rfl
+    · split
+      · rfl
+      · split
+        · rfl
+        · exact ih (i + 1) _ _ (fun k hk1 hk2 => hd k (by omega) (by omega))
+
+/-- two draw streams that agree on the draws a run of this configuration consumes -/
+def Draws.AgreeOn (cfg : Cfg) (d1 d2 : Draws D) : Prop :=
+  (∀ g j, g < cfg.nStop → j < cfg.nPop → d1.mutation g j = d2.mutation g j) ∧
+  (∀ g i, g < cfg.nStop → i < cfg.nPop → d1.tournament g i = d2.tournament g i)
+
+theorem tournamentSelection_congr (nPop k : Nat) (d1 d2 : Nat → List Nat) (hd : ∀ i, i < nPop → d1 i = d2 i)
+    (h : Heap C) (pop : List PopEntry) :
+    tournamentSelection nPop k h pop d1 = tournamentSelection nPop k h pop d2 := by
+  unfold tournamentSelection
+  split
+  · rfl
+  · exact tournamentLoop_congr pop d1 d2 nPop 0 h [] (fun i _ hi => hd i (by omega))
+
+theorem generation_congr (P : Params C D) (cfg : Cfg) (d1 d2 : Draws D) (hag : Draws.AgreeOn cfg d1 d2)
+    (g : Nat) (hg : g < cfg.nStop) (s : St C) : generation P cfg d1 g s = generation P cfg d2 g s := by
+  unfold generation
+  rw [mutatePhase_congr P (d1.mutation g) (d2.mutation g) cfg.nPop 0 s.heap s.pop
+    (fun k _ hk => hag.1 g k hg (by omega))]
+  have ht : ∀ (h : Heap C) (pop : List PopEntry),
+      tournamentSelection cfg.nPop cfg.tournamentK h pop (d1.tournament g) =
+      tournamentSelection cfg.nPop cfg.tournamentK h pop (d2.tournament g) :=
+    tournamentSelection_congr cfg.nPop cfg.tournamentK _ _ (fun i hi => hag.2 g i hg hi)
+  simp only [ht]
+
+theorem generations_congr (P : Params C D) (cfg : Cfg) (d1 d2 : Draws D) (hag : Draws.AgreeOn cfg d1 d2) :
+    ∀ (fuel g : Nat) (s : St C), g + fuel ≤ cfg.nStop →
+      generations P cfg d1 g fuel s = generations P cfg d2 g fuel s := by
+  intro fuel
+  induction fuel with
+  | zero => intro g s _; simp [generations]
+  | succ fuel ih =>
+    intro g s hg
+    simp only [generations]
+    rw [generation_congr P cfg d1 d2 hag g (by omega) s]
+    split
+    · rfl
+    · exact ih (g + 1) _ (by omega)
+
+end Congr
+
 end Graphiq.Evo
